@@ -423,6 +423,8 @@ impl<T: Qcow2IoOps> Qcow2Dev<T> {
 
     //// flush refcount table and block dirty data to disk
     pub(crate) async fn flush_refcount(&self) -> Qcow2Result<()> {
+        let mut rt_written = false;
+
         loop {
             let rt = &*self.reftable.read().await;
             let done = self
@@ -433,6 +435,15 @@ impl<T: Qcow2IoOps> Qcow2Dev<T> {
             if done {
                 break;
             }
+            // one block of the refcount table has been written
+            rt_written = true;
+        }
+
+        // Callers go on writing mapping tables, which is only safe once the
+        // refcounts are durable: a refblock reached through a reftable block
+        // that is still in flight doesn't count
+        if rt_written {
+            self.call_fsync(0, usize::MAX, 0).await?;
         }
         Ok(())
     }
